@@ -970,4 +970,84 @@ Proof.
   destruct passes as [|p']; [cbn in Hl; lia|].
   right. exists p', (pr_rem pr), (out ++ pr_out pr)%list, (bb_opt_union bb (pr_bb pr)), c1. repeat split; [lia | lia | exact H].
 Qed.
+
+(* ================= loops and conditionals as their unrolling (C16) ================= *)
+(* <if>: the body exactly when the test is non-zero *)
+Theorem if_true_is_body f e ks c test c1 : eget N e "test" = Some test -> eval_cond c test = (Ok true, c1) ->
+  gen_if (S f) e (Some ks) c = process_events f ks c1.
+Proof. intros Ht Hc. rewrite gen_if_S. rewrite Ht. unfold Pipeline.rbind. rewrite Hc. reflexivity. Qed.
+Theorem if_false_is_nothing f e ks c test c1 : eget N e "test" = Some test -> eval_cond c test = (Ok false, c1) ->
+  gen_if (S f) e (Some ks) c = (Ok ([], None), c1).
+Proof. intros Ht Hc. rewrite gen_if_S. rewrite Ht. unfold Pipeline.rbind. rewrite Hc. reflexivity. Qed.
+
+Definition set_loop_var (c : pctx) (nm : string) (v : f64) : pctx :=
+  if nonempty nm then with_scopes c (set_var (px_scopes c) nm (f64_to_string v)) (px_estack c) else c.
+
+(* count loops: no pass is made once the count is reached ... *)
+Theorem loop_count_done f ex cnt nm st ks it v acc bb c : (cnt <= it)%Z ->
+  loop_iter (S f) 0 ex cnt nm st ks it v acc bb c = (Ok (acc, bb), c).
+Proof.
+  intros H. rewrite loop_iter_S. cbv zeta. unfold Pipeline.rbind.
+  assert (E : (it <? cnt)%Z = false) by (apply Z.ltb_ge; lia). rewrite E. reflexivity.
+Qed.
+(* ... and otherwise the loop is one pass of the body, with the loop variable set to the current value, followed by the
+   loop for the remaining passes with the variable advanced by the step: the unrolling equation *)
+Theorem loop_count_unrolls f ex cnt nm st ks it v acc bb c ev b c3 : (it < cnt)%Z ->
+  process_events f ks (set_loop_var c nm v) = (Ok (ev, b), c3) -> (it + 1 <= c_loop_limit (px_cfg c3))%Z ->
+  loop_iter (S f) 0 ex cnt nm st ks it v acc bb c =
+  loop_iter f 0 ex cnt nm st ks (it + 1)%Z (f64_add v st) (acc ++ ev)%list (bb_opt_union bb b) c3.
+Proof.
+  intros Hlt Hb Hl. rewrite loop_iter_S. cbv zeta. unfold Pipeline.rbind.
+  assert (E : (it <? cnt)%Z = true) by (apply Z.ltb_lt; lia). rewrite E. cbn [negb].
+  fold (set_loop_var c nm v). rewrite Hb.
+  assert (El : (c_loop_limit (px_cfg c3) <? it + 1)%Z = false) by (apply Z.ltb_ge; lia). rewrite El. reflexivity.
+Qed.
+(* while: the condition is tested before each pass *)
+Theorem loop_while_tests_first f ex cnt nm st ks it v acc bb c c1 : eval_cond c ex = (Ok false, c1) ->
+  loop_iter (S f) 1 ex cnt nm st ks it v acc bb c = (Ok (acc, bb), c1).
+Proof. intros Hc. rewrite loop_iter_S. cbv zeta. unfold Pipeline.rbind. rewrite Hc. reflexivity. Qed.
+Theorem loop_while_unrolls f ex cnt nm st ks it v acc bb c c1 ev b c3 : eval_cond c ex = (Ok true, c1) ->
+  process_events f ks (set_loop_var c1 nm v) = (Ok (ev, b), c3) -> (it + 1 <= c_loop_limit (px_cfg c3))%Z ->
+  loop_iter (S f) 1 ex cnt nm st ks it v acc bb c =
+  loop_iter f 1 ex cnt nm st ks (it + 1)%Z (f64_add v st) (acc ++ ev)%list (bb_opt_union bb b) c3.
+Proof.
+  intros Hc Hb Hl. rewrite loop_iter_S. cbv zeta. unfold Pipeline.rbind. rewrite Hc. cbn [negb].
+  fold (set_loop_var c1 nm v). rewrite Hb.
+  assert (El : (c_loop_limit (px_cfg c3) <? it + 1)%Z = false) by (apply Z.ltb_ge; lia). rewrite El. reflexivity.
+Qed.
+(* until: the body runs before the condition is looked at (at least one pass); the condition ends the loop after a pass *)
+Theorem loop_until_runs_first f ex cnt nm st ks it v acc bb c ev b c3 c4 :
+  process_events f ks (set_loop_var c nm v) = (Ok (ev, b), c3) -> (it + 1 <= c_loop_limit (px_cfg c3))%Z ->
+  eval_cond c3 ex = (Ok true, c4) ->
+  loop_iter (S f) 2 ex cnt nm st ks it v acc bb c = (Ok ((acc ++ ev)%list, bb_opt_union bb b), c4).
+Proof.
+  intros Hb Hl Hc. rewrite loop_iter_S. cbv zeta. unfold Pipeline.rbind. cbn [negb].
+  fold (set_loop_var c nm v). rewrite Hb.
+  assert (El : (c_loop_limit (px_cfg c3) <? it + 1)%Z = false) by (apply Z.ltb_ge; lia). rewrite El. rewrite Hc. reflexivity.
+Qed.
+Theorem loop_until_unrolls f ex cnt nm st ks it v acc bb c ev b c3 c4 :
+  process_events f ks (set_loop_var c nm v) = (Ok (ev, b), c3) -> (it + 1 <= c_loop_limit (px_cfg c3))%Z ->
+  eval_cond c3 ex = (Ok false, c4) ->
+  loop_iter (S f) 2 ex cnt nm st ks it v acc bb c =
+  loop_iter f 2 ex cnt nm st ks (it + 1)%Z (f64_add v st) (acc ++ ev)%list (bb_opt_union bb b) c4.
+Proof.
+  intros Hb Hl Hc. rewrite loop_iter_S. cbv zeta. unfold Pipeline.rbind. cbn [negb].
+  fold (set_loop_var c nm v). rewrite Hb.
+  assert (El : (c_loop_limit (px_cfg c3) <? it + 1)%Z = false) by (apply Z.ltb_ge; lia). rewrite El. rewrite Hc. reflexivity.
+Qed.
+(* <for>: each item (and its index) is bound in turn *)
+Definition set_for_vars (c : pctx) (var : string) (idxv : option string) (item : string) (idx : Z) : pctx :=
+  with_scopes c (match idxv with
+                 | Some iv => set_var (set_var (px_scopes c) var item) iv (int_str idx)
+                 | None => set_var (px_scopes c) var item end) (px_estack c).
+Theorem for_unrolls f var idxv ks item rest idx acc bb c ev b c1 :
+  process_events f ks (set_for_vars c var idxv item idx) = (Ok (ev, b), c1) -> (idx + 1 <= c_loop_limit (px_cfg c1))%Z ->
+  for_iter (S f) var idxv ks (item :: rest) idx acc bb c =
+  for_iter f var idxv ks rest (idx + 1)%Z (acc ++ ev)%list (bb_opt_union bb b) c1.
+Proof.
+  intros Hb Hl. rewrite for_iter_S. cbv zeta. unfold Pipeline.rbind. fold (set_for_vars c var idxv item idx). rewrite Hb.
+  assert (El : (c_loop_limit (px_cfg c1) <? idx + 1)%Z = false) by (apply Z.ltb_ge; lia). rewrite El. reflexivity.
+Qed.
+Theorem for_done f var idxv ks idx acc bb c : for_iter (S f) var idxv ks [] idx acc bb c = (Ok (acc, bb), c).
+Proof. rewrite for_iter_S. reflexivity. Qed.
 End P.
